@@ -36,7 +36,7 @@ func (s copyHistStep) String() string {
 func TestC04CopyHistory(t *testing.T) {
 	rep := NewReport("C04")
 	defer rep.Finish(t)
-	rep.Rule = "every history of spec/SPCopyHistory.tla (a ServiceProvider value a with AllowIDPInitiated on or off; steps: present a signed response that answers the outstanding request / another ID / nothing to a value, assign a value's flag, make b by struct-copying a and setting its flag) in which something was presented before a change and that ends in a presentation is replayed on real values; a value without the opt-in that accepts a response which does not answer the outstanding request violates the statement, a refused answer to the outstanding request too"
+	rep.Rule = "every history of spec/SPCopyHistory.tla (a ServiceProvider value a with AllowIDPInitiated on or off; steps: present to a value a signed response whose Response-level and confirmation-level InResponseTo each answer the outstanding request / name another ID / are absent, assign a value's flag, make b by struct-copying a and setting its flag) in which something was presented before a change and that ends in a presentation is replayed on real values; a value without the opt-in that accepts a response which does not answer the outstanding request violates the statement, a refused answer to the outstanding request too"
 	lines := loadLines(t, "copyhist.ndjson")
 	if len(lines) == 0 {
 		rep.Break("no histories")
@@ -48,19 +48,27 @@ func TestC04CopyHistory(t *testing.T) {
 	saml.TimeNow = func() time.Time { return now }
 	ts := func(d time.Duration) *string { return sp(now.Add(d).UTC().Format("2006-01-02T15:04:05.000Z")) }
 	const outstanding = "id-req-outstanding"
-	mk := func(kind string, n int) []byte {
-		var irt *string
-		switch kind {
+	irtOf := func(cls string, n int) *string {
+		switch cls {
 		case "answers":
-			irt = sp(outstanding)
+			return sp(outstanding)
 		case "other":
-			irt = sp(fmt.Sprintf("id-req-never-sent-%d", n))
+			return sp(fmt.Sprintf("id-req-never-sent-%d", n))
+		}
+		return nil
+	}
+	// kind = "<Response level>/<bearer confirmation>"
+	mk := func(kind string, n int) []byte {
+		rc := strings.SplitN(kind, "/", 2)
+		var confs []ConfSpec
+		if rc[1] != "noconf" {
+			confs = []ConfSpec{{Recipient: sp(spACS), InResponseTo: irtOf(rc[1], n), NotOnOrAfter: ts(90 * time.Second)}}
 		}
 		as := buildAssertion(AssnSpec{ID: fmt.Sprintf("id-a-%d", n), IssueInstant: ts(0), Issuer: sp(idpEntityID),
-			NameID: sp("user@example.com"), Confs: []ConfSpec{{Recipient: sp(spACS), InResponseTo: irt, NotOnOrAfter: ts(90 * time.Second)}},
+			NameID: sp("user@example.com"), Confs: confs,
 			NotBefore: ts(-time.Second), NotOnOrAfter: ts(90 * time.Second), Audiences: []string{spEntityID},
 			AuthnInstant: ts(0), SessionIndex: "si", Attrs: []AttrSpec{{Name: "uid", FriendlyName: "uid", Values: []string{"u"}}}})
-		resp := buildResponse(RespSpec{ID: fmt.Sprintf("id-r-%d", n), InResponseTo: irt, IssueInstant: ts(0),
+		resp := buildResponse(RespSpec{ID: fmt.Sprintf("id-r-%d", n), InResponseTo: irtOf(rc[0], n), IssueInstant: ts(0),
 			Destination: sp(spACS), Issuer: sp(idpEntityID), Status: sp(statusOK)})
 		resp.AddChild(as)
 		return docBytes(signEnveloped(resp, key("idp1"), SigOpts{}))
@@ -114,10 +122,10 @@ func TestC04CopyHistory(t *testing.T) {
 				case p:
 					rep.DriftCase(key_+":panic", "panic: "+strings.SplitN(msg, "\n", 2)[0], replay)
 					return
-				case accepted && !optIn && st.K != "answers":
+				case accepted && !optIn && st.K != "answers/answers" && st.K != "answers/noconf":
 					rep.Violation("C04:copy-history:"+hid, fmt.Sprintf("step %d: value %s has AllowIDPInitiated=false at that moment, yet it accepts a response whose InResponseTo (%s) does not answer the outstanding request (history %s)", n, st.V, st.K, hid), replay)
 					return
-				case !accepted && st.K == "answers":
+				case !accepted && st.K == "answers/answers":
 					rep.Violation("C04:copy-history:"+hid+":refused", fmt.Sprintf("step %d: value %s refuses a valid response to its outstanding request (history %s): %v", n, st.V, hid, replay["error"]), replay)
 					return
 				case accepted != (st.R == "accept"):
